@@ -43,6 +43,20 @@ CHECKS = {
         "Last-contig precondition applied as > ceil(t)+1 bp; order compared by name.",
         "3-C08",
     ),
+    "C09": (
+        "exploration",
+        "designed-tagging workload (intent kept beside each case) + placement-map oracle: the assembly holding the core bases of every piece must be the designed destination; absent sequence follows the Target / haplotype-by-name rules; CLI slice checks the file-name <-> assembly mapping on written files",
+        "For every piece of every designed tagging (single haplotype, Target mode, two haplotypes, Primary) whose core holds contig bases, the destination observed in the real outputs is compared with the design; no exception is tolerated on these consistent designs.",
+        "Only consistent taggings are generated; destination judged on core bases as in C02.",
+        "3-C09",
+    ),
+    "C10": (
+        "exploration",
+        "output self-consistency monitor (unique names, numbering without holes, non-increasing sizes, write order, chromosome.list / chr_report CSV lines from the real AssemblyStats) + designed names (name tags, unlocs under their chromosome, homologues sharing a number)",
+        "Each completed designed tagging is checked for the naming and ordering rules of the statement; a separate 'vanishing chromosome' shard reproduces known finding D9 and matches only that mechanism signature there.",
+        "Input names outside the generated namespaces; haplotig order under either length reading; hole checks only when every unloc/haplotig piece holds contig bases.",
+        "3-C10",
+    ),
     "C11": (
         "exploration",
         "independent junction counter over contig ends vs AssemblyStats; metamorphic recomputation of the real statistics with whole scaffolds reversed; CLI slice: log line and info.yaml vs counts recomputed from the written files",
